@@ -108,13 +108,13 @@ func (s *Server) rejectPrivateAndLoopbackIPAction(_ context.Context, in egress.I
 		isWellKnownIPv4LocalDomainName := false
 		isWellKnownIPv6LocalDomainName := false
 		for _, d := range wellKnownIPv4LocalDomainNames {
-			if domainName == d {
+			if strings.EqualFold(domainName, d) {
 				isWellKnownIPv4LocalDomainName = true
 				break
 			}
 		}
 		for _, d := range wellKnownIPv6LocalDomainNames {
-			if domainName == d {
+			if strings.EqualFold(domainName, d) {
 				isWellKnownIPv6LocalDomainName = true
 				break
 			}
@@ -129,19 +129,20 @@ func (s *Server) rejectPrivateAndLoopbackIPAction(_ context.Context, in egress.I
 			}
 		}
 	} else if len(ip) == 0 {
-		return egress.Action{
-			Action: appctlpb.EgressAction_DIRECT,
-		}
+		// An empty host is dialed as the local machine.
+		ip = net.ParseIP("127.0.0.1")
 	}
 
-	if !ip.IsPrivate() && !ip.IsLoopback() {
+	// An unspecified address (0.0.0.0 or ::) is dialed as the local machine.
+	isLoopback := ip.IsLoopback() || ip.IsUnspecified()
+	if !ip.IsPrivate() && !isLoopback {
 		return egress.Action{
 			Action: appctlpb.EgressAction_DIRECT,
 		}
 	}
 
 	// For testing propose, allow bypassing the user check below.
-	if ip.IsLoopback() && s.config.AllowLoopbackDestination {
+	if isLoopback && s.config.AllowLoopbackDestination {
 		return egress.Action{
 			Action: appctlpb.EgressAction_DIRECT,
 		}
@@ -168,7 +169,7 @@ func (s *Server) rejectPrivateAndLoopbackIPAction(_ context.Context, in egress.I
 		return egress.Action{
 			Action: appctlpb.EgressAction_DIRECT,
 		}
-	} else if ip.IsLoopback() && user.GetAllowLoopbackIP() {
+	} else if isLoopback && user.GetAllowLoopbackIP() {
 		return egress.Action{
 			Action: appctlpb.EgressAction_DIRECT,
 		}
